@@ -377,6 +377,12 @@ class Rewriter:
                 return '%sohsl_sort_by_key(%s, |%s| %s, Ghost(|%s: %s| (%s) as int));' % (
                     mm.group(1), mm.group(2), mm.group(3), mm.group(4), mm.group(3), elem, mm.group(4))
             text = re.sub(r'(?m)(?<=[;{}\n])(\s*)([A-Za-z_]\w*)\.sort_by_key\(\s*\|\s*(\w+)\s*\|\s*([^;]+?)\s*\)\s*;', r15, text)
+            # R18  `X.iter().position( |x| *x == V )` -> ohsl_position_eq(&X, &V)   (iterator adapters are outside the verifier;
+            #      the std contract of `position` with an equality predicate is assumed, the surrounding code is verified)
+            def r18(mm):
+                self.log.append(('R18', fid, mm.group(0).strip()))
+                return 'ohsl_position_eq(&%s, &%s)' % (mm.group(1), mm.group(3))
+            text = re.sub(r'([A-Za-z_][\w.]*)\.iter\(\)\s*\.position\(\s*\|\s*(\w+)\s*\|\s*\*\2\s*==\s*([A-Za-z_]\w*)\s*\)', r18, text)
             # R7b  `for PAT in X.drain(..)` -> `for PAT in core::mem::take(X)` (X: &mut Vec)
             def r7b(mm):
                 self.log.append(('R7', fid, mm.group(0)))
